@@ -1,24 +1,92 @@
 (* Evaluation of C14 correspondence cases: model vs implementation, and the
    certified checker on the implementation's output.  Depends on the models
    only (not on the proofs). *)
-From Coupe Require Import Lib.Prelude Lib.Report Model.NumPart Model.Vn.
+From Coupe Require Import Lib.Prelude Lib.SFloat Lib.Report Model.NumPart Model.Vn Model.ArithW Model.VnW.
+From Coq Require Import Floats.SpecFloat.
 Open Scope Z_scope.
 
 (* c_alg: 0 = VnBest, 1 = VnFirst.  c_flt: the weights were passed as f64
    (integer-valued).  c_impl: IOk = the partition array after an Ok return;
    c_cnt: the returned move count; c_after: the array after the call when the
    call returned an error (must be the input array). *)
-Record case14 := mk14 { c_alg : N; c_flt : bool; c_ws : list Z; c_p0 : list N;
-                        c_impl : impl_res; c_cnt : N; c_after : list N }.
+Inductive case14 :=
+| mk14 (c_alg : N) (c_flt : bool) (c_ws : list Z) (c_p0 : list N) (c_impl : impl_res) (c_cnt : N) (c_after : list N)
+(* genuine binary64 weights (bit patterns); run on a rayon pool of one thread *)
+| mk14f (c_alg : N) (c_wbits : list N) (c_p0 : list N) (c_impl : impl_res) (c_cnt : N) (c_after : list N).
 
-Definition eval14 (c : case14) : verdict :=
-  let ws := c_ws c in let p0 := c_p0 c in
-  let best := (c_alg c =? 0)%N in
-  let r := if best then vn_best (c_flt c) ws p0 else vn_first ws p0 in
-  let untouched := list_eqb N.eqb (c_after c) p0 in
+Definition res2_eqb (a b : res (list N * N)) : bool :=
+  match a, b with
+  | Ok (p, n), Ok (q, m) => list_eqb N.eqb p q && (n =? m)%N
+  | Err e, Err e' => match e, e' with
+                     | InputLenMismatch x y, InputLenMismatch x' y' => Nat.eqb x x' && Nat.eqb y y'
+                     | NegativeValues, NegativeValues => true
+                     | _, _ => false end
+  | Panic _, Panic _ => true
+  | OutOfFuel, OutOfFuel => true
+  | _, _ => false
+  end.
+
+(* turns granted to VnBest's `loop` in the generic model (no bound is known for floats) *)
+Definition vb_fuel (n : nat) : nat := 1000 + 8 * n * n.
+
+Definition f64_weight_ok (x : spec_float) : bool :=
+  match x with
+  | S754_zero _ => true
+  | S754_finite s _ _ => negb s
+  | _ => false
+  end.
+
+Definition eval14f (alg : N) (wbits : list N) (p0 : list N) (impl : impl_res) (cnt : N) (after : list N) : verdict :=
+  let ws := map (fun b => f64_of_bits b) wbits in
+  let best := (alg =? 0)%N in
+  let r := if best then vn_bestW F64arith (vb_fuel (length ws)) ws p0 else vn_firstW F64arith ws p0 in
+  let untouched := list_eqb N.eqb after p0 in
   let corr :=
-    match r, c_impl c with
-    | Ok (p, n), IOk p' => list_eqb N.eqb p p' && (n =? c_cnt c)%N
+    match r, impl with
+    | Ok (p, n), IOk p' => list_eqb N.eqb p p' && (n =? cnt)%N
+    | Err e, IErr code a b => err_matches e code a b && untouched
+    | Panic _, IPanic => true
+    | OutOfFuel, IHang => true          (* the model predicts that the loop does not end *)
+    | _, _ => false
+    end in
+  let len_ok := Nat.eqb (length ws) (length p0) in
+  let chk := match impl with IOk p' => check_vn_f64 ws p0 p' | _ => None end in
+  let prop :=
+    if negb len_ok then
+      match impl with
+      | IErr 1 a b => (a =? N.of_nat (length p0))%N && (b =? N.of_nat (length ws))%N && untouched
+      | _ => false
+      end
+    else if forallb f64_weight_ok ws then
+      match chk with
+      | Some (accepted, _) => accepted
+      | None => false                    (* error, panic or HANG inside the contract *)
+      end
+    else if best then
+      (* a negative weight: VnBest must answer NegativeValues; NaN / infinities: outside the contract *)
+      if existsb (fun x => SFltb x (S754_zero false)) ws && forallb (fun x => negb (is_nan x)) ws then
+        match impl with IErr 2 _ _ => untouched | _ => false end
+      else true
+    else true in
+  let cls := match impl with
+             | IOk _ => match chk with Some (_, true) => 7 | _ => 8 end
+             | IErr 1 _ _ => 1 | IErr 2 _ _ => 2 | IErr _ _ _ => 6 | IPanic => 3 | IHang => 4 end%N in
+  {| corr_ok := corr; prop_ok := prop; cls := cls |}.
+
+Definition eval14i (c_alg : N) (c_flt : bool) (ws : list Z) (p0 : list N) (c_impl : impl_res) (c_cnt : N) (c_after : list N) : verdict :=
+  let best := (c_alg =? 0)%N in
+  let r := if best then vn_best c_flt ws p0 else vn_first ws p0 in
+  (* the generic model at the integer arithmetic (i64 runs) / at binary64 on the same integers (f64 runs)
+     is the integer model *)
+  let rW :=
+    if c_flt then
+      let wf := map (fun z => f64_of_Z z) ws in
+      if best then vn_bestW F64arith (vb_fuel (length ws)) wf p0 else vn_firstW F64arith wf p0
+    else if best then vn_bestW Zarith (vb_fuel (length ws)) ws p0 else vn_firstW Zarith ws p0 in
+  let untouched := list_eqb N.eqb c_after p0 in
+  let corr :=
+    match r, c_impl with
+    | Ok (p, n), IOk p' => list_eqb N.eqb p p' && (n =? c_cnt)%N
     | Err e, IErr code a b => err_matches e code a b && untouched
     | Panic _, IPanic => true
     | _, _ => false
@@ -28,25 +96,31 @@ Definition eval14 (c : case14) : verdict :=
   let prop :=
     if negb len_ok then
       (* C20 clause: the mismatch is reported and the array is untouched *)
-      match c_impl c with
+      match c_impl with
       | IErr 1 a b => (a =? N.of_nat (length p0))%N && (b =? N.of_nat (length ws))%N && untouched
       | _ => false
       end
     else if nonneg then
-      match c_impl c with
+      match c_impl with
       | IOk p' => check_vn ws p0 p'
       | _ => false                       (* error, panic or hang inside the contract *)
       end
     else if best then
       (* VnBest rejects negative weights, array untouched *)
-      match c_impl c with
+      match c_impl with
       | IErr 2 _ _ => untouched
       | _ => false
       end
     else true in                         (* VnFirst with a negative weight: outside the contract *)
-  let cls := match c_impl c with
+  let cls := match c_impl with
              | IOk p' => if list_eqb N.eqb p' p0 then 0 else 5
              | IErr 1 _ _ => 1 | IErr 2 _ _ => 2 | IErr _ _ _ => 6 | IPanic => 3 | IHang => 4 end%N in
-  {| corr_ok := corr; prop_ok := prop; cls := cls |}.
+  {| corr_ok := corr && res2_eqb rW r; prop_ok := prop; cls := cls |}.
+
+Definition eval14 (c : case14) : verdict :=
+  match c with
+  | mk14 a f ws p0 i n af => eval14i a f ws p0 i n af
+  | mk14f a wb p0 i n af => eval14f a wb p0 i n af
+  end.
 
 Definition run14 (cs : list case14) := report (map eval14 cs).
